@@ -7,7 +7,8 @@ from props.c02 import bits, _arr, DTYPES, MAXV, gen_pair, rand_sorted, gen_pair_
 PROPS = ('GambitV.Props.C15', 'GambitV.C15')
 TIE = [('GambitV.Tie.Metric', 'GambitV.Tie.Metric')]
 RULE = ('triples of k-mer sets: exhaustive over all 32^3 triples of subsets of a 5-element universe; random structured triples '
-        '(sizes <= 60, occasionally <= 2000) in mixed integer widths; common-new-element additions; the C15-F1 witness. '
+        '(sizes <= 60, occasionally <= 2000) in mixed integer widths, the five distances also taken through the bulk interfaces (list refilled in place, '
+        'unordered index selections, a SignatureArray window of a larger values array); common-new-element additions; the C15-F1 witness. '
         'Non-trivial = distinct triple of pairwise different non-empty sets.')
 TRUSTED = ['harness/props/c15.py + Driver/C02.lean (c15.* predicates evaluated in Lean on the real bit patterns)']
 ASSUMPTIONS = ['same kernel as C02']
@@ -27,7 +28,48 @@ def check(ctx, case):
 		A8, B8 = _arr(a, 'u8'), _arr(b, 'u8')
 		if bits(jd(A8, B8)) != bits(vals[0]) or bits(jd(A8, B)) != bits(vals[0]):
 			return lines, [f'distance changes with integer width: {bits(jd(A8, B8))} vs {bits(vals[0])}']
-		return lines, []
+		pf = []
+		route = case.get('route')
+		if route:
+			# the same five distances obtained through the bulk interfaces (reference collections of every kind, the same list
+			# object refilled in place between calls, unordered index selections): still a metric, still the same numbers
+			from gambit.kmers import KmerSpec
+			from gambit.sigs import SignatureArray
+			ks = KmerSpec(11, 'ATGAC')
+			W = [_arr(x, 'u8') for x in (a, b, c)]
+			try:
+				if route == 'array-list':
+					L = [W[2], W[2]]
+					def via(i, j):
+						L[0] = W[j]; L[1] = W[i]
+						return metric.jaccarddist_array(W[i], L)[0]
+					bv = [via(0, 1), via(1, 0), via(1, 2), via(0, 2), via(0, 0)]
+				elif route == 'matrix-idx':
+					refs = SignatureArray([W[0], W[1], W[2], W[0]], ks, dtype='u8')
+					M = metric.jaccarddist_matrix(W, refs, ref_indices=[0, 2, 1, 3], chunksize=case.get('chunk'))
+					bv = [M[0][2], M[1][0], M[1][1], M[0][1], M[0][3]]
+				elif route == 'pairwise-idx':
+					refs = SignatureArray([W[0], W[1], W[2], W[1]], ks, dtype='u8')
+					M = metric.jaccarddist_pairwise(refs, indices=[0, 2, 1, 3])      # rows / columns: A, C, B, B
+					bv = [M[0][2], M[2][0], M[2][1], M[0][1], M[0][0]]
+				else:   # a window of a larger values array, 3 signatures
+					pad_l, pad_r = np.array([3, 5, 8], dtype='u8'), np.array([1, 2], dtype='u8')
+					values = np.concatenate([pad_l] + W + [pad_r])
+					bounds = np.cumsum([3] + [len(x) for x in W]).astype(np.intp)
+					sub_ = SignatureArray.from_arrays(values, bounds, ks)
+					if route == 'array-window':
+						M = [metric.jaccarddist_array(x, sub_) for x in W]
+					elif route == 'pairwise-window':
+						M = metric.jaccarddist_pairwise(sub_)
+					else:
+						M = metric.jaccarddist_matrix(W, sub_)
+					bv = [M[0][1], M[1][0], M[1][2], M[0][2], M[0][0]]
+			except Exception as e:
+				return lines, [f'bulk route {route} raised {exc_kind(e)}: {e}']
+			lines.append(f'c15.triple {nats(a)} {nats(b)} {nats(c)} ' + ' '.join(str(bits(v)) for v in bv))
+			if [bits(v) for v in bv] != [bits(v) for v in vals]:
+				pf.append(f'distances through {route} differ from the two-signature distances: {[bits(v) for v in bv]} vs {[bits(v) for v in vals]}')
+		return lines, pf
 	if kind == 'addcommon':
 		a, b, x = case['a'], case['b'], case['x']
 		A, B = _arr(a, 'u8'), _arr(b, 'u8')
@@ -90,7 +132,8 @@ def run(ctx):
 			c = gen_pair(rng, 60)[0]
 		dts = [fit_dtype(rng, a), fit_dtype(rng, b), fit_dtype(rng, c)]
 		nt = bool(a) and bool(b) and bool(c) and a != b and b != c and a != c
-		sub({'kind': 'triple', 'a': a, 'b': b, 'c': c, 'dts': dts}, 'random-triple', nt)
+		route = rng.choice([None, None, 'array-list', 'matrix-idx', 'pairwise-idx', 'pairwise-window', 'matrix-window', 'array-window'])
+		sub({'kind': 'triple', 'a': a, 'b': b, 'c': c, 'dts': dts, 'route': route, 'chunk': rng.choice([None, 1, 2, 3])}, 'random-triple' + (f'-{route}' if route else ''), nt)
 		if rng.random() < 0.5:
 			cand = [v for v in BOUNDARY + [max(a + b + [0]) + rng.randint(1, 5)] if v not in a and v not in b and v < 2 ** 64]
 			x = rng.choice(cand)
